@@ -96,12 +96,11 @@ Proof.
       inversion IHn; subst. constructor; [discriminate|assumption].
 Qed.
 
-Lemma runs_consec : forall l prev, increasing prev l = true ->
-  Forall (fun run => consec (run_start run) run) (runs l).
+Lemma runs_consec_step x r : increasing (e_nr x) r = true ->
+  Forall (fun run => consec (run_start run) run) (runs r) ->
+  Forall (fun run => consec (run_start run) run) (runs (x :: r)).
 Proof.
-  induction l as [|x r IH]; intros prev H; [constructor|].
-  cbn [increasing] in H. apply andb_true_iff in H. destruct H as [_ Hr].
-  specialize (IH _ Hr). cbn [runs].
+  intros Hr IH. cbn [runs].
   destruct (runs_spec r) as [Hc _].
   destruct (runs r) as [|[|y run] rs] eqn:E.
   - repeat constructor.
@@ -116,10 +115,32 @@ Proof.
       replace (N.succ (e_nr x)) with (e_nr y) by lia. exact Hrun.
 Qed.
 
+Lemma runs_consec : forall l prev, increasing prev l = true ->
+  Forall (fun run => consec (run_start run) run) (runs l).
+Proof.
+  induction l as [|x r IH]; intros prev H; [constructor|].
+  cbn [increasing] in H. apply andb_true_iff in H. destruct H as [_ Hr].
+  apply runs_consec_step; [exact Hr|]. apply (IH _ Hr).
+Qed.
+
+(* strictly increasing object numbers, no bound on the first *)
+Definition strictly_increasing (l : list ent) : Prop :=
+  match l with [] => True | x :: r => increasing (e_nr x) r = true end.
+
+Lemma runs_consec_all l : strictly_increasing l ->
+  Forall (fun run => consec (run_start run) run) (runs l).
+Proof.
+  destruct l as [|x r]; intros H; [constructor|].
+  apply runs_consec_step; [exact H|]. apply (runs_consec _ _ H).
+Qed.
+
 Lemma strip_trailer_digit d l : is_digit d = true -> strip s_trailer (d :: l) = None.
 Proof.
-  intros Hd. cbn. destruct (N.eqb_spec 116 d) as [E|E]; [|reflexivity]. subst d. discriminate.
+  intros Hd. unfold s_trailer. cbn [strip]. destruct (N.eqb_spec 116 d) as [E|E]; [|reflexivity]. subst d. discriminate.
 Qed.
+
+Lemma strip_trailer_dec n r : strip s_trailer (dec n ++ r) = None.
+Proof. destruct (dec_head n) as (d & ds & E & Hd). rewrite E. cbn [app]. apply strip_trailer_digit. exact Hd. Qed.
 
 Definition good_run (run : list ent) : Prop :=
   run <> [] /\ consec (run_start run) run /\ Forall bounded run.
@@ -145,12 +166,7 @@ Proof.
     set (tl := concat (map (print_run e) rs) ++ s_trailer ++ rest).
     unfold print_run. repeat rewrite <- app_assoc.
     cbn [parse_sections].
-    destruct (dec_head (run_start run)) as (d & ds & Ed & Hd).
-    rewrite Ed at 1. cbn [app]. rewrite strip_trailer_digit by exact Hd. rewrite <- Ed.
-    change (d :: ds ++ ?x) with ((d :: ds) ++ x).
-    replace ((d :: ds) ++ [32] ++ dec (lenN run) ++ eolb e ++ concat (map (entry_line e) run) ++ tl)
-      with (dec (run_start run) ++ [32] ++ dec (lenN run) ++ eolb e ++ concat (map (entry_line e) run) ++ tl)
-      by (rewrite Ed; reflexivity).
+    rewrite strip_trailer_dec.
     rewrite parse_num_dec by reflexivity. cbn [bind]. rewrite strip_app. cbn [bind].
     rewrite parse_num_dec by apply nondigit_eol. cbn [bind].
     assert (Hhead : head_not 10 (concat (map (entry_line e) run) ++ tl)).
@@ -161,8 +177,8 @@ Proof.
 Qed.
 
 (* the whole table: everything the writer puts between "xref" and "<<" *)
-Lemma parse_sections_table e ents prev rest :
-  increasing prev ents = true -> Forall bounded ents ->
+Lemma parse_sections_table e ents rest :
+  strictly_increasing ents -> Forall bounded ents ->
   parse_sections (concat (map (print_run e) (runs ents)) ++ s_trailer ++ rest)
                  (concat (map (print_run e) (runs ents)) ++ s_trailer ++ rest) = Some (ents, rest).
 Proof.
@@ -170,7 +186,7 @@ Proof.
   destruct (runs_spec ents) as [Hc Hne].
   rewrite parse_sections_runs.
   - rewrite Hc. reflexivity.
-  - pose proof (runs_consec ents prev Hinc) as Hcon.
+  - pose proof (runs_consec_all ents Hinc) as Hcon.
     apply Forall_forall. intros run Hin. repeat split.
     + rewrite Forall_forall in Hne. apply Hne. exact Hin.
     + rewrite Forall_forall in Hcon. apply Hcon. exact Hin.
